@@ -26,7 +26,7 @@ for d in /verif/seeded/C*/; do
 done
 for f in /verif/selftest/patches/revert_*.diff; do
   n=$(basename $f .diff)
-  case $n in revert_F2|revert_F3) p=C01;; revert_F4|revert_F10) p=C07;; revert_F5|revert_F16|revert_F17) p=C09;; revert_F7|revert_F9|revert_F18|revert_F19|revert_F20) p=C10;; revert_F11) p="C12";; revert_F12) p=C16;; revert_F13|revert_F14|revert_F15) p=C02;; *) p="";; esac
+  case $n in revert_F2|revert_F3) p=C01;; revert_F4|revert_F10) p=C07;; revert_F5|revert_F16|revert_F17) p=C09;; revert_F7|revert_F9|revert_F18|revert_F19|revert_F20) p=C10;; revert_F11|revert_F22) p="C12";; revert_F12) p=C16;; revert_F23|revert_F24) p=C14;; revert_F26) p=C15;; revert_F13|revert_F14|revert_F15) p=C02;; *) p="";; esac
   for q in $p; do run $f $q $n; done
 done
 rm -rf /var/tmp/seedmatrix-out
